@@ -72,7 +72,7 @@ def census_crate(run, doc, cfgname, entry_reach_only=True, full=None):
             for fld in v["fields"]:
                 if re.search(r"\*(const|mut) ", fld["ty"]):
                     run.ob(False, "rawptr-field|%s|%s" % (a["path"], fld["name"]), "C16-3 no raw pointer in crate types", a["path"], fld["ty"])
-    reach = F.reach()
+    reach = F.scope()
     nfn = 0
     ncalls = 0
     for f in F.fns:
